@@ -261,6 +261,7 @@ func c05CheckImage(img []byte, seed uint32, wantRootEntries int) {
 }
 
 type c05CreateCase struct {
+	sparse   uint8
 	size     int64
 	spb      uint8
 	bpg      uint32
@@ -275,7 +276,7 @@ func c05Create(c c05CreateCase) (*FileSystem, *c05Dev, uint32) {
 	copy(id[:], vp.Bytes("uuid", 16))
 	seed := crc.CRC32c(0xffffffff, id[:])
 	vp.NoPanic()
-	fsys, err := Create(dev, c.size, 0, 512, &Params{UUID: &id, SectorsPerBlock: c.spb, BlocksPerGroup: c.bpg, InodeCount: c.inodes, Features: c.features})
+	fsys, err := Create(dev, c.size, 0, 512, &Params{UUID: &id, SectorsPerBlock: c.spb, BlocksPerGroup: c.bpg, InodeCount: c.inodes, SparseSuperVersion: c.sparse, Features: c.features})
 	vp.AllowPanic()
 	if err != nil {
 		return nil, dev, seed
@@ -469,4 +470,96 @@ func VP_C05_image_remove_1k() {
 	vp.AssertUnless("KF-C05-7", true, g.freeInodesGD(0) == c05ZeroBits(dev.img, ibm, 0, g.ipg), "after Remove: descriptor free inodes = clear bits")
 	in := g.readInode(11)
 	vp.AssertUnless("KF-C05-7", true, in.links == 0, "after Remove: the inode is no longer in use (link count 0)")
+}
+
+// c05ImageInodes: Create with an explicit inode count; the number of inodes per group must fit the
+// single inode bitmap block of a group (e2fsck: "superblock is corrupt" otherwise).
+func c05ImageInodes(count uint32, known bool) {
+	fsys, dev, _ := c05Create(c05CreateCase{size: 2304 * 1024, spb: 2, bpg: 2304, features: c05Plain, inodes: count})
+	if fsys == nil {
+		return
+	}
+	g := c05ReadGeo(dev.img)
+	vp.AssertUnless("KF-C05-3", known, g.ipg <= g.bs*8, "inodes per group fit one inode bitmap block")
+	vp.Assert(g.inodes == g.ipg*g.groups, "inode count = inodes per group * groups")
+	if !known {
+		c05CheckCounts(&g)
+		vp.Cover("explicit inode count accepted, image consistent")
+	}
+}
+
+// 2.25 MiB, 1 KiB blocks, one group of 2304 blocks: 8200 inodes need more than the 8192 bits of one bitmap block
+func VP_C05_image_inode_count() {
+	if vp.Bool("manyInodes") {
+		c05ImageInodes(8200, true)
+	} else {
+		c05ImageInodes(4000, false)
+	}
+}
+
+// c05CountsBad = number of deviations found by the pass-5 checks (for use under AssertUnless).
+func c05CountsBad(g *c05Geo) uint64 {
+	var bad, sumB, sumI uint64
+	for i := 0; i < g.groups; i++ {
+		bbl, ibl := g.blockBitmapLoc(i), g.inodeBitmapLoc(i)
+		if bbl < g.fdb || bbl >= g.blocks || ibl < g.fdb || ibl >= g.blocks {
+			bad++
+			continue
+		}
+		nb := g.blocksInGroup(i)
+		fb := c05ZeroBits(g.img, bbl*g.bs, 0, nb)
+		fi := c05ZeroBits(g.img, ibl*g.bs, 0, g.ipg)
+		bad += vp.IteU64(g.freeBlocksGD(i) == fb, 0, 1) + vp.IteU64(g.freeInodesGD(i) == fi, 0, 1)
+		bad += c05ZeroBits(g.img, bbl*g.bs, nb, g.bpg)
+		sumB += fb
+		sumI += fi
+	}
+	bad += vp.IteU64(g.freeBlocksSB() == sumB, 0, 1) + vp.IteU64(g.freeInodesSB() == sumI, 0, 1)
+	return bad
+}
+
+// Create on 1 KiB blocks with blockCount = 4*256+1 (one block after the last full group): the library
+// builds 5 groups where the format has 4 (KF-C05-1); with 100 blocks in the last group all is well.
+func c05ImageTail(blocks int64, known bool) {
+	fsys, dev, _ := c05Create(c05CreateCase{size: blocks * 1024, spb: 2, bpg: 256, features: c05Plain})
+	if fsys == nil {
+		return
+	}
+	g := c05ReadGeo(dev.img)
+	vp.AssertUnless("KF-C05-1", known, g.inodes == g.ipg*g.groups, "s_inodes_count = s_inodes_per_group * group count")
+	if !known {
+		vp.Assert(c05CountsBad(&g) == 0, "counts agree with the bitmaps")
+		vp.Cover("short last group accepted, image consistent")
+	}
+}
+func VP_C05_image_tail_group() {
+	if vp.Bool("oneBlockTail") {
+		c05ImageTail(4*256+1, true)
+	} else {
+		c05ImageTail(4*256+100, false)
+	}
+}
+
+// Create with SparseSuperVersion = 2 (accepted): the backup list {0, 1, groups-1} is used as BLOCK numbers
+// by writeSuperblock/writeGDT, so a superblock copy lands in block groups-1 (KF-C05-8).
+func c05ImageSparse2(v uint8, known bool) {
+	fsys, dev, _ := c05Create(c05CreateCase{size: 1024 * 1024, spb: 2, bpg: 256, features: c05Plain, sparse: v})
+	if fsys == nil {
+		return
+	}
+	g := c05ReadGeo(dev.img)
+	vp.Assert(g.groups == 4, "fixture: 4 groups")
+	vp.AssertUnless("KF-C05-8", known, c05CountsBad(&g) == 0, "counts agree with the bitmaps")
+	// block 3 belongs to group 0's metadata (bitmaps / inode table), not to a superblock copy
+	vp.AssertUnless("KF-C05-8", known, c05le16(dev.img, 3*1024+0x38) != 0xef53, "no superblock copy inside the bitmaps/inode table of group 0")
+	if !known {
+		vp.Cover("sparse_super (v1) image consistent")
+	}
+}
+func VP_C05_image_sparse_super2() {
+	if vp.Bool("sparseSuper2") {
+		c05ImageSparse2(2, true)
+	} else {
+		c05ImageSparse2(0, false)
+	}
 }
